@@ -14,7 +14,7 @@ Driver of the template model (C01/C02/C17).
   tplwf <w> <units>             parse only → `W 1` / `W 0`: `wf` (Model/Tmpl/WF.lean) of the tag tree
 
 `<w>` (character width) is ignored by the model.  `<doc>`: comma-separated prefix code
-  u | z | t | f | n<dec> | i<signed dec> | s<u.u.u> (s alone = empty) | a<count> doc… |
+  u | z | t | f | n<dec> | i<signed dec> | s<u.u.u> (s alone = empty) | a<count> doc… | p doc |
   o<count> (k<u.u.u> doc)…
 Real numbers are not rendered by this driver (`fmtReal` prints `?`), group/sort are not supported
 (`groupBy` gives no value, `sortDoc` is the identity): the generators avoid them.
@@ -24,6 +24,7 @@ partial def parseDoc : List String → Option (Doc × List String)
   | [] => none
   | tok :: rest =>
     match tok.toList with
+    | ['p'] => parseDoc rest   -- a pointer value is transparent to every reader the renderer uses
     | ['u'] => some (.undefined, rest)
     | ['z'] => some (.null, rest)
     | ['t'] => some (.tru, rest)
